@@ -61,6 +61,9 @@
 extern crate libc;
 
 mod half_lock;
+#[cfg(sighook_verif)]
+#[doc(hidden)]
+pub mod verif;
 
 use std::collections::hash_map::Entry;
 use std::collections::{BTreeMap, HashMap};
@@ -177,6 +180,8 @@ impl Slot {
         new.sa_flags = flags as _;
         // C data structure, expected to be zeroed out.
         let mut old: libc::sigaction = unsafe { mem::zeroed() };
+        #[cfg(sighook_verif)]
+        verif::sched_point("sigaction_install", signal as u64);
         // FFI ‒ pointers are valid, it doesn't take ownership.
         if unsafe { libc::sigaction(signal, &new, &mut old) } != 0 {
             return Err(Error::last_os_error());
@@ -217,6 +222,8 @@ impl Prev {
     fn detect(signal: c_int) -> Result<Self, Error> {
         // C data structure, expected to be zeroed out.
         let mut old: libc::sigaction = unsafe { mem::zeroed() };
+        #[cfg(sighook_verif)]
+        verif::sched_point("sigaction_detect", signal as u64);
         // FFI ‒ pointers are valid, it doesn't take ownership.
         if unsafe { libc::sigaction(signal, ptr::null(), &mut old) } != 0 {
             return Err(Error::last_os_error());
